@@ -144,20 +144,20 @@ class Expression:
 
         if isinstance(node, ast.BoolOp):
             if isinstance(node.op, ast.And):
-                result = True
-                for v in node.values:
+                for v in node.values[:-1]:
                     result = self._eval(v, x)
                     if not result:  # falsy → return immediately
                         return result
-                return result
+                # NOTE: Python does not test the truth value of the last operand.
+                return self._eval(node.values[-1], x)
 
             if isinstance(node.op, ast.Or):
-                result = False
-                for v in node.values:
+                for v in node.values[:-1]:
                     result = self._eval(v, x)
                     if result:  # truthy → return immediately
                         return result
-                return result
+                # NOTE: Python does not test the truth value of the last operand.
+                return self._eval(node.values[-1], x)
 
             raise InvalidExpression("Unsupported boolean operator")
 
